@@ -61,6 +61,8 @@ type sim struct {
 	// power-level durability: per inode content at its last fsync, directory
 	// listing at the last directory fsync
 	durContent map[uint64][]byte
+	light      bool              // sampled offsets only (see run)
+	firstSync  map[uint64][]byte // inode -> content at its first fsync inside the running operation
 	durDir     map[string]uint64
 	syncedUpTo map[uint64]int // inode -> number of records (global count) issued when it was last fsynced
 	nsync      int
@@ -133,6 +135,9 @@ func (s *sim) hook(f *os.File) {
 		return
 	}
 	i := fi.Sys().(*syscall.Stat_t).Ino
+	if _, ok := s.firstSync[i]; !ok {
+		s.firstSync[i] = b
+	}
 	s.durContent[i] = b
 	// records of the running operation are encoded before its sync
 	s.syncedUpTo[i] = len(s.recs) + s.pending
@@ -383,7 +388,7 @@ func Run(c *core.RunCtx) {
 
 func run(c *core.RunCtx) {
 	t := c.Tape
-	s := &sim{c: c, t: t, durContent: map[uint64][]byte{}, durDir: map[string]uint64{}, syncedUpTo: map[uint64]int{}}
+	s := &sim{c: c, t: t, firstSync: map[uint64][]byte{}, durContent: map[uint64][]byte{}, durDir: map[string]uint64{}, syncedUpTo: map[uint64]int{}}
 	base := os.Getenv("VERIF_SCRATCH")
 	if base == "" {
 		base = "/dev/shm"
@@ -403,6 +408,7 @@ func run(c *core.RunCtx) {
 		nops = 4 + t.Choose(60)
 	}
 	examPm := []int{100, 250, 600}[t.Choose(3)]
+	s.light = t.Choose(2) == 0
 	c.Log("cfg", "opt=%v seg=%d nops=%d exam=%d", s.opt, seg, nops, examPm)
 	fileutil.VerifSyncHook = s.hook
 	wal.VerifSetLogger(nil)
@@ -427,6 +433,7 @@ func run(c *core.RunCtx) {
 		prePower := s.powerMin()
 		preKill := s.killMin
 		preFiles := listWal(s.wd)
+		s.firstSync = map[uint64][]byte{}
 		s.doOp()
 		if len(c.Viol) > 0 {
 			break
@@ -437,6 +444,11 @@ func run(c *core.RunCtx) {
 		}
 		last := op == nops-1
 		imgCap := 2500
+		if s.light {
+			// many histories with few offsets each (history-level defects: segment
+			// names, markers, overwrites) next to few histories with every offset
+			imgCap = 500
+		}
 		if c.Tier == "thorough" {
 			imgCap = 10000
 		}
